@@ -48,17 +48,19 @@ impl Bits for Complex {
 }
 
 /// is input sample `i` tagged?  (sparse, with clusters, so that tags fall on either side of every kind of chunk boundary)
-fn tagged(i: usize) -> bool {
+fn tagged(i: usize, dense: bool) -> bool {
     let h = (i as u64).wrapping_mul(0x9E3779B97F4A7C15) >> 52;
-    h < 3 || (i % 4099) < 3
+    // ... and denser in every fourth stretch of 50 000 samples, so that the few thousand samples which the drip-fed
+    // schedule covers a few at a time hold tags as well
+    h < 3 || (i % 4099) < 3 || (dense && (i / 50_000) % 4 == 2 && i % 61 == 7)
 }
-fn feed<T: Copy>(w: &WriteStream<T>, data: &[T], pos: &mut usize, k: usize) -> usize {
+fn feed<T: Copy>(w: &WriteStream<T>, data: &[T], pos: &mut usize, k: usize, dense: bool) -> usize {
     let mut wb = w.write_buf().unwrap();
     let n = k.min(wb.len()).min(data.len() - *pos);
     wb.fill_from_slice(&data[*pos..*pos + n]);
     let mut tags = vec![];
     for i in 0..n {
-        if tagged(*pos + i) {
+        if tagged(*pos + i, dense) {
             tags.push(Tag::new(i, "t", TagValue::U64((*pos + i) as u64)));
         }
     }
@@ -118,6 +120,9 @@ fn run<TI: Copy, TO: Bits>(
 fn run2<TI: Copy, TO: Bits>(
     target: &str, seed: u64, blk: &mut dyn Block, w: &WriteStream<TI>, out: &ReadStream<TO>, clk: Option<&ReadStream<Float>>, data: &[TI], adversarial: bool,
 ) -> Result<Vec<u64>, Fail> {
+    // the generated loop of sync blocks filters the window's tag list once per SAMPLE (a TODO in the macro): dense tags
+    // would make those targets take minutes
+    let dense = ["fftfilt", "fftfiltc", "hilbert"].contains(&target);
     let mut got_clk: Vec<u64> = vec![];
     let mut otags: Vec<(u64, u64)> = vec![];
     let mut ctags: Vec<(u64, u64)> = vec![];
@@ -125,7 +130,11 @@ fn run2<TI: Copy, TO: Bits>(
     let mut pos = 0usize;
     let mut got: Vec<u64> = vec![];
     let mut idle = 0;
-    let mut phase = 0; // adversarial: 0 fill output, 1 trickle drain, 2 trickle feed, 3 flush
+    // adversarial: 0 fill the output (feed all, drain nothing) | 1 output full: drain a few samples at a time | 2 stop
+    // feeding, drain everything: the input backlog runs dry | 3 input scarce: feed a few samples at a time, drain
+    // everything | 4 feed a few, drain a few | 5 flush
+    let mut phase = 0;
+    let mut phase_rounds = 0u64;
     let mut rounds = 0u64;
     loop {
         rounds += 1;
@@ -133,8 +142,11 @@ fn run2<TI: Copy, TO: Bits>(
             return Err(Fail { target: target.into(), prop: "C09", label: format!("C09.{target}.terminates"), what: "schedule did not finish".into(), seed });
         }
         // feed
-        let k = if !adversarial { 1usize << 20 } else { match phase { 0 => 1 << 20, 1 => rng.pick(&[0, 0, 1000]), 2 => rng.pick(&[0, 1, 2, 3, 17]), _ => 1 << 20 } };
-        let fed = feed(w, data, &mut pos, k);
+        let k = if !adversarial { 1usize << 20 } else { match phase { 0 => 1 << 20, 1 => rng.pick(&[0, 0, 1000]), 2 => 0, 3 => rng.pick(&[0, 1, 2, 3, 17, 40]), 4 => rng.pick(&[0, 1, 2, 3, 17]), _ => 1 << 20 } };
+        // while filling the output keep a reserve of input for the input-scarce phases
+        let reserve = data.len() / 22;
+        let k = if adversarial && phase < 3 { k.min((data.len() - reserve).saturating_sub(pos)) } else { k };
+        let fed = feed(w, data, &mut pos, k, dense);
         // work
         let before = (w.free(), readable(out) + clk.map(readable).unwrap_or(0));
         let r = std::panic::catch_unwind(std::panic::AssertUnwindSafe(|| match blk.work() {
@@ -153,25 +165,29 @@ fn run2<TI: Copy, TO: Bits>(
             return Err(Fail { target: target.into(), prop: "C09", label: format!("C09.{target}.again-means-progress"), what: format!("Again without progress (input free {} output fill {})", after.0, after.1), seed });
         }
         // drain
-        let j = if !adversarial { usize::MAX } else { match phase { 0 => 0, 1 => rng.pick(&[0, 1, 2, 3, 7, 64]), 2 => rng.pick(&[0, 1, 5, 1000]), _ => usize::MAX } };
-        let mut drained = drain(out, if clk.is_some() && phase < 3 { usize::MAX } else { j }, &mut got, &mut otags);
+        let j = if !adversarial { usize::MAX } else { match phase { 0 => 0, 1 => rng.pick(&[0, 1, 2, 3, 7, 64]), 4 => rng.pick(&[0, 1, 5, 1000]), _ => usize::MAX } };
+        let mut drained = drain(out, if clk.is_some() && phase < 5 { usize::MAX } else { j }, &mut got, &mut otags);
         if let Some(c) = clk {
             drained += drain(c, j, &mut got_clk, &mut ctags);
         }
         // phase changes
         if adversarial {
-            match phase {
-                0 => { if after == before && v != 0 { phase = 1; rounds = rounds.max(1); } }
-                1 => { if rounds % 400 == 0 { phase = 2; } }
-                2 => { if rounds % 400 == 0 { phase = 3; } }
-                _ => {}
-            }
+            phase_rounds += 1;
+            let next = match phase {
+                0 => after == before && v != 0,
+                1 => phase_rounds >= 200,
+                2 => (after == before && v != 0 && drained == 0) || phase_rounds >= 1500,
+                3 => phase_rounds >= 600,
+                4 => phase_rounds >= 200,
+                _ => false,
+            };
+            if next { phase += 1; phase_rounds = 0; }
         }
         let progressed = fed > 0 || drained > 0 || after != before;
         if pos == data.len() && !progressed {
             idle += 1;
-            if idle > 3 && (!adversarial || phase == 3) { break; }
-            if adversarial && idle > 3 { phase = 3; idle = 0; }
+            if idle > 3 && (!adversarial || phase == 5) { break; }
+            if adversarial && idle > 3 { phase = 5; idle = 0; }
         } else {
             idle = 0;
         }
@@ -179,7 +195,7 @@ fn run2<TI: Copy, TO: Bits>(
     if ONE_TO_ONE_TAGS.contains(&target) {
         // C12: each input tag exactly once, on the output sample with the same index (only outputs actually emitted count)
         otags.sort();
-        let want: Vec<(u64, u64)> = (0..got.len()).filter(|i| tagged(*i)).map(|i| (i as u64, i as u64)).collect();
+        let want: Vec<(u64, u64)> = (0..got.len()).filter(|i| tagged(*i, dense)).map(|i| (i as u64, i as u64)).collect();
         if otags != want {
             let first = otags.iter().zip(want.iter()).position(|(a, b)| a != b).unwrap_or(otags.len().min(want.len()));
             return Err(Fail { target: target.into(), prop: "C12", label: format!("C12.{target}.each-tag-once-at-the-same-index"),
